@@ -210,6 +210,10 @@ func (c *aeadCrypter) Decrypt(rand io.Reader, ciphertext, additionalData []byte,
 		return nil, fmt.Errorf("missing expected IV unprotected header")
 	}
 
+	if len(nonce) != c.AEAD.NonceSize() {
+		return nil, fmt.Errorf("IV must be %d bytes, got %d", c.AEAD.NonceSize(), len(nonce))
+	}
+
 	return c.AEAD.Open(ciphertext[:0], nonce, ciphertext, additionalData)
 }
 
@@ -312,6 +316,10 @@ func (c *ctrCrypter) Decrypt(rand io.Reader, ciphertext, additionalData []byte, 
 		return nil, fmt.Errorf("IV not included in header")
 	}
 
+	if len(iv) != c.Cipher.BlockSize() {
+		return nil, fmt.Errorf("IV must be %d bytes, got %d", c.Cipher.BlockSize(), len(iv))
+	}
+
 	plaintext = ciphertext
 	ctr := cipher.NewCTR(c.Cipher, iv)
 	ctr.XORKeyStream(plaintext, ciphertext)
@@ -383,12 +391,22 @@ func (c *cbcCrypter) Decrypt(rand io.Reader, ciphertext, additionalData []byte, 
 		return nil, fmt.Errorf("IV not included in header")
 	}
 
+	if len(iv) != c.Cipher.BlockSize() {
+		return nil, fmt.Errorf("IV must be %d bytes, got %d", c.Cipher.BlockSize(), len(iv))
+	}
+	if len(ciphertext) == 0 || len(ciphertext)%c.Cipher.BlockSize() != 0 {
+		return nil, fmt.Errorf("ciphertext length must be a positive multiple of %d, got %d", c.Cipher.BlockSize(), len(ciphertext))
+	}
+
 	plaintext = ciphertext
 	cbc := cipher.NewCBCDecrypter(c.Cipher, iv)
 	cbc.CryptBlocks(plaintext, ciphertext)
-	plaintext = unpad(plaintext)
+	padSize := int(plaintext[len(plaintext)-1])
+	if padSize == 0 || padSize > c.Cipher.BlockSize() {
+		return nil, fmt.Errorf("invalid padding")
+	}
 
-	return plaintext, err
+	return unpad(plaintext), nil
 }
 
 // PKCS#7 padding
